@@ -102,10 +102,31 @@ def r1(db, rep):
             if n["k"] == "VarDecl" and n.get("c") and (facts.tyi(f, n.get("t")) or {}).get("k") == "ptr" and \
                     any(x["k"] == "DeclRefExpr" and (x.get("var") in aliases or x.get("var") in cursors) for x in facts.walk(n["c"][0])):
                 into.add(n["var"])          # buffer + K, or cursor.pointer() of the cursor laid over the buffer
+        # ... and so do further cursors laid over such a pointer (`OutputMemoryStream patch(stream.pointer(), 2)`)
+        for _ in range(3):
+            for n in facts.fn_nodes(f):
+                if n["k"] == "VarDecl" and n.get("c") and "OutputMemoryStream" in ((facts.tyi(f, n.get("t")) or {}).get("s") or "") and \
+                        any(x["k"] == "DeclRefExpr" and (x.get("var") in into or x.get("var") in cursors) for x in facts.walk(n["c"][0])):
+                    cursors.add(n["var"])
         sums = [n for n in facts.fn_nodes(f) if n["k"] == "CallExpr" and n.get("cname") in SUM_FNS]
         writes = [n for n in facts.fn_nodes(f) if n["k"] == "CXXMemberCallExpr" and n.get("crec") == "Tins::Memory::OutputMemoryStream"
                   and n.get("cname") in ("write", "write_be", "write_le", "fill")]
         hdr_writes = [w for w in writes if len(w["c"]) == 2 and "header_" in facts.expr_str(w["c"][1])] or writes[:1]
+
+        def receiver(w):
+            r_ = w["c"][0]
+            while r_.get("c") and r_["k"] != "DeclRefExpr":
+                r_ = r_["c"][0]
+            return r_.get("var") if r_["k"] == "DeclRefExpr" else None
+        main_cursor = receiver(hdr_writes[0]) if hdr_writes else None
+        # the checksum written through a SECOND cursor laid over an earlier position of the buffer is the patch, not a
+        # further byte of the layer: the value is the complemented sum (a local initialised from `~...`, or the expression)
+        comp_vars = set(n["var"] for n in facts.fn_nodes(f) if n["k"] == "VarDecl" and n.get("c") and
+                        any(x["k"] == "UnaryOperator" and x.get("op") == "~" for x in facts.walk(n["c"][0])))
+        patch_writes = [w for w in writes if len(w["c"]) == 2 and receiver(w) in cursors and receiver(w) != main_cursor and
+                        any((x["k"] == "DeclRefExpr" and x.get("var") in comp_vars) or (x["k"] == "UnaryOperator" and x.get("op") == "~")
+                            for x in facts.walk(w["c"][1]))]
+        writes = [w for w in writes if w not in patch_writes]
         if not sums:
             rep.violation("R1-checksum-protocol", "%s:sum" % short, facts.loc(f), "no checksum is computed any more")
             continue
@@ -155,7 +176,7 @@ def r1(db, rep):
                     any(x["k"] == "UnaryOperator" and x.get("op") == "~" for x in facts.walk(n["c"][0])):
                 stores.append((n, n.get("name")))
         key = "%s:complement-store-patch" % short
-        patches = []
+        patches = list(patch_writes)
         for n in facts.fn_nodes(f):
             if n["k"] == "CallExpr" and n.get("cname") == "memcpy":
                 d = facts.strip_all(n["c"][1])
@@ -178,6 +199,17 @@ def r1(db, rep):
                 rep.ok("R1-checksum-protocol", key, facts.loc(f, stores[0][0]), "~sum stored in `%s` and patched into the buffer" % stores[0][1])
             else:
                 rep.violation("R1-checksum-protocol", key, facts.loc(f, stores[0][0]), "the checksum is patched into the buffer but not kept in the object")
+        # ---- O7: the patch lands on the checksum field (the field's offset in the header struct that was written first,
+        #          or the position at which the literal 0 stood in for it)
+        key = "%s:patch-position" % short
+        if patches and stores:
+            verdict = patch_position(db, f, g, patches, aliases, cursors, writes, hdr_writes, main_cursor)
+            if verdict[0] == "ok":
+                rep.ok("R1-checksum-protocol", key, facts.loc(f, patches[0]), verdict[1])
+            elif verdict[0] == "bad":
+                rep.violation("R1-checksum-protocol", key, facts.loc(f, verdict[2]), verdict[1])
+            else:
+                rep.undecided("R1-checksum-protocol", key, facts.loc(f, patches[0]), verdict[1])
         # ---- O1: zero when written
         key = "%s:zero-when-written" % short
         zero = []
@@ -202,28 +234,66 @@ def r1(db, rep):
         # ---- O4: fold loops for 32-bit accumulators in this function
         fold_rule(db, rep, f, short)
         # ---- O6: pseudo-header arguments
-        ph = [n for n in facts.fn_nodes(f) if n["k"] == "CallExpr" and n.get("cname") == "pseudoheader_checksum"]
+        ph = [(n, f, None, None) for n in facts.fn_nodes(f) if n["k"] == "CallExpr" and n.get("cname") == "pseudoheader_checksum"]
+        # ... or inside a file-local helper that hands the pseudo-header sum back through a reference parameter
+        for cs in facts.fn_nodes(f):
+            if cs["k"] != "CallExpr" or not cs.get("callee"):
+                continue
+            h0 = db.functions.get(cs["callee"])
+            hs = [h0] if h0 and h0.get("body") and h0.get("kind") == "function" and not h0.get("rec") and \
+                cs.get("cname") != "pseudoheader_checksum" else []
+            for h_ in hs:
+                if facts._named_in_headers(db, h_["name"].split("::")[-1]):
+                    continue
+                bind = dict((pr["var"], cs["c"][1 + k]) for k, pr in enumerate(h_["params"]) if 1 + k < len(cs["c"]))
+                for n in facts.fn_nodes(h_):
+                    if n["k"] == "CallExpr" and n.get("cname") == "pseudoheader_checksum":
+                        ph.append((n, h_, bind, cs))
         if proto is not None and not ph:
             rep.violation("R1-checksum-protocol", "%s:pseudo-header" % short, facts.loc(f), "no pseudo-header sum any more")
-        for i, n in enumerate(ph):
+        for i, (n, hf, bind, cs) in enumerate(ph):
             key = "%s:pseudo-header#%d" % (short, i + 1)
             a = n["c"][1:]
-            t0, t1_, t2, t3 = [facts.expr_str(x) for x in a[:4]]
+
+            def through(e):
+                """the helper's parameter stands for the argument it was called with"""
+                e0 = facts.strip_all(e)
+                if bind is not None and e0["k"] == "DeclRefExpr" and e0.get("var") in bind:
+                    return bind[e0["var"]]
+                return e
+            t0, t1_, t2, t3 = [facts.expr_str(through(x)) for x in a[:4]]
             recv0 = t0.split("->")[0]
             okaddr = t0.endswith("src_addr()") and t1_.endswith("dst_addr()") and t1_.split("->")[0] == recv0
             oksize = t2.replace("this->", "") in ("size()", f["params"][1]["name"])   # the driver passes total_sz == size()
             pc = None
-            for x in facts.walk(a[3]):
+            for x in facts.walk(through(a[3])):
                 if x["k"] == "DeclRefExpr" and x.get("enumc"):
                     pc = x["enumc"]
             okproto = pc == proto
             # the receiver is the (cast of the) parent
             okparent = False
-            for v in facts.fn_nodes(f):
+            for v in facts.fn_nodes(hf):
                 if v["k"] == "VarDecl" and v.get("name") == recv0.strip("() ") and v.get("c"):
                     okparent = "parent" in facts.expr_str(v["c"][0])
+                    if bind is not None:
+                        okparent = any(x["k"] == "DeclRefExpr" and x.get("var") in bind and "parent" in facts.expr_str(bind[x["var"]])
+                                       for x in facts.walk(v["c"][0]))
             # added to the sum over the whole layer
-            p = par.get(n["id"])
+            hidx, hpar = (idx, par) if hf is f else facts.index_fn(hf)
+            p = hpar.get(n["id"])
+            if hf is not f:
+                # the helper stores it into a reference parameter: from the call on, the argument variable holds it
+                q_ = p
+                while q_ is not None and q_["k"] in ("ImplicitCastExpr", "ParenExpr", "CStyleCastExpr", "CXXStaticCastExpr"):
+                    q_ = hpar.get(q_["id"])
+                acc_h = None
+                if q_ is not None and q_["k"] == "BinaryOperator" and q_.get("op") == "=" and strip(q_["c"][0])["k"] == "DeclRefExpr":
+                    acc_h = strip(q_["c"][0]).get("var")
+                okadd = False
+                if acc_h in bind and facts.strip_all(bind[acc_h])["k"] == "DeclRefExpr":
+                    okadd = accumulated(f, g, cs, facts.strip_all(bind[acc_h]).get("var"), None, stores, patches)
+                finish_ph(rep, f, cs, key, okaddr, oksize, okproto, okparent, okadd, pc, proto, t0, t1_, t2, t3)
+                continue
             while p is not None and p["k"] in ("ImplicitCastExpr", "ParenExpr"):
                 p = par.get(p["id"])
             okadd = p is not None and p["k"] == "BinaryOperator" and p.get("op") == "+" and any(x["k"] == "CallExpr" and x.get("cname") in SUM_FNS for x in facts.walk(p))
@@ -240,42 +310,8 @@ def r1(db, rep):
                         strip(q_["c"][0])["k"] == "DeclRefExpr":
                     acc = strip(q_["c"][0]).get("var")
                 if acc is not None:
-                    adds = [x for x in facts.fn_nodes(f) if x["k"] == "CompoundAssignOperator" and x.get("op") == "+=" and
-                            strip(x["c"][0]).get("var") == acc and
-                            any(y["k"] == "CallExpr" and y.get("cname") in SUM_FNS for y in facts.walk(x["c"][1]))]
-                    resets = [x for x in facts.fn_nodes(f) if x["k"] == "BinaryOperator" and x.get("op") == "=" and
-                              strip(x["c"][0]).get("var") == acc and x is not q_ and g.reachable(g.pos(n), g.pos(x)) and
-                              not any(y["k"] == "DeclRefExpr" and y.get("var") == acc for y in facts.walk(x["c"][1]))]
-                    # ... or `total = acc + sum_range(...)`: a later sum that reads the accumulator and adds the layer's bytes
-                    for x in facts.fn_nodes(f):
-                        val_ = None
-                        if x["k"] == "VarDecl" and x.get("c"):
-                            val_ = x["c"][0]
-                        elif x["k"] == "BinaryOperator" and x.get("op") == "=" and x is not q_:
-                            val_ = x["c"][1]
-                        if val_ is None:
-                            continue
-                        for y in facts.walk(val_):
-                            if y["k"] == "BinaryOperator" and y.get("op") == "+" and \
-                                    any(z["k"] == "DeclRefExpr" and z.get("var") == acc for z in facts.walk(y)) and \
-                                    any(z["k"] == "CallExpr" and z.get("cname") in SUM_FNS for z in facts.walk(y)):
-                                adds.append(x)
-                                break
-                    if adds and not resets and g.reaches_exit_avoiding(g.pos(n), [g.pos(x) for x in adds], normal_only=True) is None:
-                        okadd = True
-            if okaddr and oksize and okproto and okparent and okadd:
-                rep.ok("R1-checksum-protocol", key, facts.loc(f, n), "parent's src/dst, size(), %s, added to the sum of the layer" % (pc or "").split("::")[-1])
-            else:
-                what = []
-                if not okaddr or not okparent:
-                    what.append("addresses are not the parent's src_addr()/dst_addr() (%s, %s)" % (t0[:30], t1_[:30]))
-                if not oksize:
-                    what.append("length is `%s`, not size()" % t2[:30])
-                if not okproto:
-                    what.append("protocol is %s, this class is %s" % ((pc or t3).split("::")[-1], proto.split("::")[-1]))
-                if not okadd:
-                    what.append("not added to the sum over the layer's bytes")
-                rep.violation("R1-checksum-protocol", key, facts.loc(f, n), "pseudo-header: " + "; ".join(what))
+                    okadd = accumulated(f, g, n, acc, q_, stores, patches)
+            finish_ph(rep, f, n, key, okaddr, oksize, okproto, okparent, okadd, pc, proto, t0, t1_, t2, t3)
     # the summing helper itself
     for q in ("Tins::Utils::sum_range",):
         fs = db.fns_named(q)
@@ -283,6 +319,176 @@ def r1(db, rep):
             rep.analysis_broken("%s vanished" % q)
             continue
         fold_rule(db, rep, fs[0], q.replace("Tins::", ""), returns=True)
+
+
+def accumulated(f, g, n, acc, q_, stores, patches):
+    """from position n on, `acc` holds the pseudo-header sum: the sum over the layer's bytes is added to it before the value
+    is complemented / stored / patched, and it is not overwritten in between"""
+    adds = [x for x in facts.fn_nodes(f) if x["k"] == "CompoundAssignOperator" and x.get("op") == "+=" and
+            strip(x["c"][0]).get("var") == acc and
+            any(y["k"] == "CallExpr" and y.get("cname") in SUM_FNS for y in facts.walk(x["c"][1]))]
+    resets = [x for x in facts.fn_nodes(f) if x["k"] == "BinaryOperator" and x.get("op") == "=" and
+              strip(x["c"][0]).get("var") == acc and x is not q_ and g.reachable(g.pos(n), g.pos(x)) and
+              not any(y["k"] == "DeclRefExpr" and y.get("var") == acc for y in facts.walk(x["c"][1]))]
+    # ... or `total = acc + sum_range(...)`: a later sum that reads the accumulator and adds the layer's bytes
+    for x in facts.fn_nodes(f):
+        val_ = None
+        if x["k"] == "VarDecl" and x.get("c"):
+            val_ = x["c"][0]
+        elif x["k"] == "BinaryOperator" and x.get("op") == "=" and x is not q_:
+            val_ = x["c"][1]
+        if val_ is None:
+            continue
+        for y in facts.walk(val_):
+            if y["k"] == "BinaryOperator" and y.get("op") == "+" and \
+                    any(z["k"] == "DeclRefExpr" and z.get("var") == acc for z in facts.walk(y)) and \
+                    any(z["k"] == "CallExpr" and z.get("cname") in SUM_FNS for z in facts.walk(y)):
+                adds.append(x)
+                break
+    uses = [g.pos(x) for x, _ in stores] + [g.pos(x) for x in patches]
+    return bool(adds) and not resets and bool(uses) and g.first_hit(g.pos(n), uses, [g.pos(x) for x in adds]) is None
+
+
+def finish_ph(rep, f, n, key, okaddr, oksize, okproto, okparent, okadd, pc, proto, t0, t1_, t2, t3):
+    if okaddr and oksize and okproto and okparent and okadd:
+        rep.ok("R1-checksum-protocol", key, facts.loc(f, n), "parent's src/dst, size(), %s, added to the sum of the layer" % (pc or "").split("::")[-1])
+    else:
+        what = []
+        if not okaddr or not okparent:
+            what.append("addresses are not the parent's src_addr()/dst_addr() (%s, %s)" % (t0[:30], t1_[:30]))
+        if not oksize:
+            what.append("length is `%s`, not size()" % t2[:30])
+        if not okproto:
+            what.append("protocol is %s, this class is %s" % ((pc or t3).split("::")[-1], proto.split("::")[-1]))
+        if not okadd:
+            what.append("not added to the sum over the layer's bytes")
+        rep.violation("R1-checksum-protocol", key, facts.loc(f, n), "pseudo-header: " + "; ".join(what))
+
+
+def literal_zero_write(n):
+    return n["k"] == "CXXMemberCallExpr" and n.get("crec") == "Tins::Memory::OutputMemoryStream" and n.get("cname") == "write" and \
+        len(n["c"]) == 2 and facts.cval(n["c"][1]) == 0 and "unsigned short" in (n.get("callee") or "")
+
+
+def written_size(f, w):
+    """bytes one cursor write of a fixed-size value puts on the wire (None: not fixed)"""
+    if len(w["c"]) != 2 or w.get("cname") not in ("write", "write_be", "write_le"):
+        return None
+    t = facts.tyi(f, w["c"][1].get("t")) or {}
+    while t.get("k") == "ref":
+        t = facts.tyi(f, t.get("to")) or {}
+    if t.get("k") in ("int", "bool", "enum") and t.get("w"):
+        return t["w"] // 8
+    if t.get("k") == "rec" and t.get("size"):
+        return t["size"]
+    return None
+
+
+def patch_position(db, f, g, patches, aliases, cursors, writes, hdr_writes, main_cursor):
+    """where does the field live?  (a) the first write through the cursor is a header struct with a checksum-named field: at
+    that field's offset; (b) a literal 16-bit 0 is written in its place: at the number of bytes written before it"""
+    want = None
+    how = None
+    main = [w for w in writes if main_cursor is None or _recv(w) == main_cursor]
+    if hdr_writes:
+        t = facts.tyi(f, hdr_writes[0]["c"][1].get("t")) or {}
+        rec = db.records.get(t.get("name")) if t.get("k") == "rec" else None
+        if rec and main and hdr_writes[0] is main[0]:
+            for fld in rec.get("fields", []):
+                if fld.get("name") in CK_NAMES:
+                    want, how = fld["off"] // 8, "offset of `%s` in %s" % (fld["name"], t["name"].split("::")[-1])
+    zero_w = [w for w in main if literal_zero_write(w)]
+    if want is None and zero_w:
+        k = 0
+        for w in main:
+            if w is zero_w[0]:
+                want, how = k, "position of the literal 0 written for the field"
+                break
+            sz = written_size(f, w)
+            if sz is None:
+                break
+            k += sz
+    single = facts.single_assign(f)
+
+    def offset_of(e, depth=0):
+        """('const', K) | ('capture', VarDecl) | None"""
+        e = facts.strip_all(e)
+        if e["k"] == "DeclRefExpr":
+            if e.get("var") in aliases:
+                return ("const", 0)
+            if e.get("var") in single and depth < 4:
+                r = offset_of(single[e["var"]], depth + 1)
+                if r and r[0] == "capture" and r[1] is None:
+                    vd = [x for x in facts.fn_nodes(f) if x["k"] == "VarDecl" and x.get("var") == e["var"]]
+                    return ("capture", vd[0]) if vd else None
+                return r
+            return None
+        if e["k"] == "BinaryOperator" and e.get("op") == "+":
+            a, b = offset_of(e["c"][0], depth), facts.cval(e["c"][1])
+            if a and a[0] == "const" and b is not None:
+                return ("const", a[1] + b)
+            return None
+        if e["k"] == "CXXMemberCallExpr" and e.get("cname") == "pointer" and _recv(e) == main_cursor:
+            return ("capture", None)
+        if e["k"] in ("CXXConstructExpr", "ExprWithCleanups", "CXXFunctionalCastExpr", "MaterializeTemporaryExpr") and e.get("c"):
+            return offset_of(e["c"][0], depth)
+        return None
+    n_ok = 0
+    for p in patches:
+        if p["k"] == "BinaryOperator":      # ((hdr*)buffer)->check = ...
+            lhs = strip(p["c"][0])
+            base = offset_of(lhs["c"][0])
+            if lhs.get("member") not in CK_NAMES and (lhs.get("name") not in CK_NAMES):
+                return ("bad", "the patch assigns `%s`, not the checksum field" % (lhs.get("member") or lhs.get("name")), p)
+            if base != ("const", 0):
+                return ("bad" if base else "undecided", "the header struct is laid over `%s`, not over the start of the layer's buffer"
+                        % facts.expr_str(lhs["c"][0])[:40], p)
+            n_ok += 1
+            continue
+        if p["k"] == "CallExpr":            # memcpy(dest, &value, 2)
+            dest = p["c"][1]
+            site = p
+        else:                               # second_cursor.write(value)
+            rv = _recv(p)
+            vd = [x for x in facts.fn_nodes(f) if x["k"] == "VarDecl" and x.get("var") == rv]
+            if not vd or not vd[0].get("c"):
+                return ("undecided", "the patch cursor's construction was not found", p)
+            ce = facts.strip_all(vd[0]["c"][0])
+            args = ce.get("c") or []
+            if not args:
+                return ("undecided", "the patch cursor's construction was not found", p)
+            dest = args[0]
+            site = vd[0]
+            if ce["k"] != "CXXConstructExpr":
+                dest = ce
+            # nothing else goes through the patch cursor before the checksum
+            if any(_recv(w) == rv and w is not p and g.reachable(g.pos(w), g.pos(p)) for w in
+                   [x for x in facts.fn_nodes(f) if x["k"] == "CXXMemberCallExpr" and x.get("cname") in ("write", "write_be", "write_le", "fill", "skip")]):
+                return ("bad", "the patch cursor has moved before the checksum goes through it", p)
+        off = offset_of(dest)
+        if off is None:
+            return ("undecided", "patch destination `%s` is not an offset into the layer's buffer that can be read" % facts.expr_str(dest)[:40], site)
+        if off[0] == "const":
+            if want is None:
+                return ("undecided", "the checksum field's offset could not be read from what is written", site)
+            if off[1] != want:
+                return ("bad", "the checksum is patched at offset %d of the layer, the field lives at offset %d (%s)" % (off[1], want, how), site)
+        else:
+            cap = off[1] if off[1] is not None else site
+            # the captured position is the field's: the next thing through the cursor after the capture is the literal 0
+            nxt = [w for w in main if g.reachable(g.pos(cap), g.pos(w)) and not g.reachable(g.pos(w), g.pos(cap))]
+            prev = [w for w in main if g.reachable(g.pos(w), g.pos(cap)) and not g.reachable(g.pos(cap), g.pos(w))]
+            if not nxt or not literal_zero_write(nxt[0]) or any(literal_zero_write(w) for w in prev):
+                return ("bad", "the cursor position kept for the patch is not the one at which the 0 standing in for the checksum is written", site)
+        n_ok += 1
+    return ("ok", "%d patch(es) land on the checksum field (%s)" % (n_ok, how or "position captured right before the literal 0"))
+
+
+def _recv(w):
+    r_ = w["c"][0]
+    while r_.get("c") and r_["k"] != "DeclRefExpr":
+        r_ = r_["c"][0]
+    return r_.get("var") if r_["k"] == "DeclRefExpr" else None
 
 
 def strip_this(n):
